@@ -1188,6 +1188,7 @@ def env_side(rng, perturbed, side):
         poison='nan' if side == 'hist' else '1e300',
         host=rng.choice(['shack', 'node-17.example.org', 'localhost', 'oe1rsa-pc']),
         pid=rng.randrange(2, 4000000),
+        rng_seed=rng.randrange(1 << 31),
         cpus=rng.choice([1, 2, 4, 16, 64]),
         mem_pages=rng.choice([2048, 16384, 262144, 4194304, 33554432]),
         environ={'TZ': rng.choice(['UTC', 'Europe/Vienna', 'Asia/Kolkata', 'Pacific/Chatham']),
